@@ -35,6 +35,11 @@ def instances(tier):
         for N in ((2,) if tier == 'quick' else (2, 3)):
             out.append(dict(name='matrixarray[r%d,N%d]' % (rank, N), fn='matrixarray', args=dict(rank=rank, N=N), query_timeout_ms=120000))
     out.append(dict(name='ctor-errors', fn='ctor_errors', args={}))
+    for how in ('dr', 'dk'):
+        out.append(dict(name='definition-uf[N7,%s]' % how, fn='definition_n7', args=dict(how=how), dst_mode='uf', sin_exact=[7, [2]], query_timeout_ms=240000, timeout=1500))
+    for L0 in (2, 3):
+        for op in ('dr', 'dk', 'length'):
+            out.append(dict(name='setters[int-dr,L%d,%s]' % (L0, op), fn='setter_history', args=dict(ctor='int-dr', L0=L0, seq=[[op, 3 if op == 'length' else None], ['dr', None]])))
     for N in ((2, 3, 5, 50) if tier == 'quick' else (2, 3, 5, 6, 9, 25, 50, 100, 1000, 1024, 4096)):
         for ctor in ('dr', 'dk'):
             out.append(dict(name='grid-fp[N%d,%s]' % (N, ctor), fn='grid_fp', args=dict(N=N, ctor=ctor), query_timeout_ms=300000 if tier == 'quick' else 1200000, timeout=2000 if tier == 'quick' else 6000))
@@ -63,7 +68,16 @@ def claim_fresh(E, tag, D):
         E.claim_true(tag + ':long_r-shape', D.long_r.shape == (L, 1, 1))
 
 
+def definition_n7(E, how):
+    """a length that is not 5-smooth: both transforms still are the sine sums of their definition on the Domain's own grid
+    (C08's obligation, here for N=7 with Ackermannised sines); with the orthogonality of the DST this is the inverse pair"""
+    from .C08 import riemann
+    riemann(E, 7, how)
+
+
 def make_domain(E, ctor, L, name='v0'):
+    if ctor == 'int-dr':
+        return pyPRISM.Domain(length=L, dr=2), 2          # a spacing given as a Python int (integer-typed grid arrays)
     v = E.real(name, pos=True, default=0.25)
     return (pyPRISM.Domain(length=L, dr=v) if ctor == 'dr' else pyPRISM.Domain(length=L, dk=v)), v
 
@@ -71,7 +85,7 @@ def make_domain(E, ctor, L, name='v0'):
 def setter_history(E, ctor, L0, seq):
     D, v0 = make_domain(E, ctor, L0)
     E.reachable('setters')
-    E.claim_eq('ctor:%s-kept' % ctor, D.dr if ctor == 'dr' else D.dk, v0)
+    E.claim_eq('ctor:%s-kept' % ctor, D.dk if ctor == 'dk' else D.dr, v0)
     E.claim_true('ctor:length-kept', D.length == L0)
     claim_fresh(E, 'ctor', D)
     for step, (op, val) in enumerate(seq):
